@@ -360,18 +360,19 @@ where
                 self.insert(i, lo, hi, exp)
             }
             S_QUERY | S_PQUERY | S_QUERYALL => {
-                let (lo, hi, consume) = match op.kind {
+                // args[4] = 6 * style + k: how the query iterator is consumed (see `drain_query`)
+                let (lo, hi, consume, style) = match op.kind {
                     S_QUERY => {
                         let (a, b) = self.range_of(op);
-                        (a, b, op.args[4].rem_euclid(6) as usize)
+                        (a, b, op.args[4].rem_euclid(6) as usize, (op.args[4].rem_euclid(36) / 6) as usize)
                     }
                     S_PQUERY => {
                         let x = self.coord(op.args[0], op.args[1]);
-                        (x, x, 0)
+                        (x, x, 0, 0)
                     }
-                    _ => (self.lay.lo, self.lay.hi, 0),
+                    _ => (self.lay.lo, self.lay.hi, 0, 0),
                 };
-                self.query(i, lo, hi, consume, op.kind == S_QUERYALL)
+                self.query(i, lo, hi, consume, style, op.kind == S_QUERYALL)
             }
             S_ADV => {
                 let d = op.args[0].rem_euclid(1 << 16) as i32;
@@ -532,7 +533,7 @@ where
         Step::Continue
     }
 
-    fn query(&mut self, i: usize, lo: i64, hi: i64, consume: usize, whole: bool) -> Step {
+    fn query(&mut self, i: usize, lo: i64, hi: i64, consume: usize, style: usize, whole: bool) -> Step {
         let t = self.clock;
         let b0 = self.lay.bucket(lo);
         let b1 = self.lay.bucket(hi);
@@ -593,29 +594,10 @@ where
         let budget = 64 + 4 * pre_copies.len() as u64;
         let tree = &mut self.tree;
         let (r, calls, _) = lib_call(countdown, budget, false, || {
-            let mut got: Vec<SegVal> = Vec::new();
-            let mut it = tree.iter_by_range(range, t);
-            if consume == 0 {
-                for v in it {
-                    got.push(v);
-                }
-                (got, true)
-            } else {
-                let mut exhausted = false;
-                for _ in 0..consume {
-                    match it.next() {
-                        Some(v) => got.push(v),
-                        None => {
-                            exhausted = true;
-                            break;
-                        }
-                    }
-                }
-                (got, exhausted)
-            }
+            drain_query(tree.iter_by_range(range, t), style, consume)
         });
         self.out.callbacks.push(calls);
-        let (got, exhausted) = match r {
+        let (got, exhausted, hidden) = match r {
             Ok(x) => x,
             Err(CallErr::Injected) => {
                 self.out.injections += 1;
@@ -634,8 +616,13 @@ where
             self.dropped_iter_before = true;
             self.out.class("iterator_dropped_midway");
         }
+        // all qualifying values were collected one by one (nothing skipped or merely counted)
+        let full_ids = exhausted && matches!(style, 0 | 1);
+        if style != 0 && consume > 0 {
+            self.out.class("query_next_then_internal_iteration");
+        }
         let mut ids: Vec<u32> = got.iter().map(|v| v.id).collect();
-        trace!(self, "#{} iter_by_range([{}, {}] = buckets {}..{}, t={}){} -> ids {:?} (model {:?})", i, lo, hi, b0, b1, t, if consume == 0 { String::new() } else { format!(" first {}", consume) }, ids, expected);
+        trace!(self, "#{} iter_by_range([{}, {}] = buckets {}..{}, t={}){} -> ids {:?} (model {:?})", i, lo, hi, b0, b1, t, if consume == 0 && style == 0 { String::new() } else { format!(" {} {}", DRAIN_STYLES[style], consume) }, ids, expected);
         ids.sort();
         if self.rc.obs(3) {
             self.out.observations += 1;
@@ -653,20 +640,32 @@ where
                     return Step::Stop;
                 }
             }
-            if exhausted {
+            if full_ids {
                 if ids != expected {
                     let missing: Vec<u32> = expected.iter().copied().filter(|e| !ids.contains(e)).collect();
-                    self.out.fail(3, "missed-value", i, format!("SegExpTree: fully consumed query [{}, {}] (buckets {}..{}) at t={} yielded ids {:?}; missing {:?}", lo, hi, b0, b1, t, ids, missing));
+                    self.out.fail(3, "missed-value", i, format!("SegExpTree: fully consumed query [{}, {}] (buckets {}..{}) at t={} ({} {}) yielded ids {:?}; missing {:?}", lo, hi, b0, b1, t, DRAIN_STYLES[style], consume, ids, missing));
                     return Step::Stop;
                 }
-            } else if ids.len() != consume.min(expected.len()) {
-                self.out.fail(3, "partial-count", i, format!("SegExpTree: taking {} items of query [{}, {}] at t={} produced {} although {} values qualify", consume, lo, hi, t, ids.len(), expected.len()));
-                return Step::Stop;
+            } else {
+                // values that must have been collected / merely counted under this way of consuming
+                let e = expected.len();
+                let k = consume.min(e);
+                let (want_ids, want_hidden) = match style {
+                    0 => (k, 0),
+                    2 => (k, e - k),
+                    3 | 5 => (e - k, 0),
+                    4 => (k + (e > k) as usize, 0),
+                    _ => (e, 0),
+                };
+                if ids.len() != want_ids || hidden != want_hidden {
+                    self.out.fail(3, "partial-count", i, format!("SegExpTree: consuming query [{}, {}] at t={} as `{} {}` produced {} values (+{} counted) although {} values qualify (expected {} +{})", lo, hi, t, DRAIN_STYLES[style], consume, ids.len(), hidden, e, want_ids, want_hidden));
+                    return Step::Stop;
+                }
             }
         }
         // C15 through the API: on a domain of at most 32 points (bucket == point) the stored-at
         // places of every unexpired value must meet the visited places iff the ranges overlap
-        if self.rc.obs(15) && exhausted && self.lay.shift == 0 {
+        if self.rc.obs(15) && full_ids && self.lay.shift == 0 {
             // single insert: the masks meet iff the bucket ranges overlap
             self.out.observations += 1;
             if ids != expected {
@@ -676,28 +675,14 @@ where
         }
         // twin (C12)
         if let Some(tw) = self.twin.as_mut() {
-            let mut ids2: Vec<u32> = Vec::new();
-            {
-                let mut it = tw.iter_by_range(range, t);
-                if consume == 0 {
-                    for v in it {
-                        ids2.push(v.id);
-                    }
-                } else {
-                    for _ in 0..consume {
-                        match it.next() {
-                            Some(v) => ids2.push(v.id),
-                            None => break,
-                        }
-                    }
-                }
-            }
+            let (got2, _, hidden2) = drain_query(tw.iter_by_range(range, t), style, consume);
+            let mut ids2: Vec<u32> = got2.iter().map(|v| v.id).collect();
             if self.rc.obs(12) {
                 self.out.observations += 1;
                 self.out.twin_observation();
                 // order is unspecified: compare as multisets when fully consumed, sizes otherwise
                 ids2.sort();
-                let same = if exhausted { ids2 == ids } else { ids2.len() == ids.len() };
+                let same = if full_ids { ids2 == ids } else { ids2.len() == ids.len() && hidden2 == hidden };
                 if !same {
                     self.out.fail(12, "twin-query", i, format!("SegExpTree: after clear, query [{}, {}] at t={} yields ids {:?} but a fresh instance driven by the same suffix yields {:?}", lo, hi, t, ids, ids2));
                     return Step::Stop;
@@ -960,4 +945,64 @@ where
     }
     out.ops_run = pts.len() as u32 * 2;
     out
+}
+
+
+pub const DRAIN_STYLES: [&str; 6] = ["first", "next-then-for_each", "next-then-count", "skip-then-for_each", "next-then-last", "nth-then-rest"];
+
+/// The ways a caller may consume the query iterator (it is an ordinary `Iterator`, so internal
+/// iteration - `for_each`, `count`, `last`, `skip`, `nth` - is as much part of its contract as
+/// `next`).  Returns (values seen one by one, driven to exhaustion?, values merely counted).
+///   0 first k   : k == 0 -> `for` loop to the end; else k x `next`, then the iterator is dropped
+///   1 next-then-for_each : k x `next`, rest through `for_each` (fold)
+///   2 next-then-count    : k x `next`, rest through `count`
+///   3 skip-then-for_each : `skip(k)`, rest through `for_each`
+///   4 next-then-last     : k x `next`, then `last`
+///   5 nth-then-rest      : `nth(k)`, rest through `next`
+pub fn drain_query<I: Iterator<Item = SegVal>>(mut it: I, style: usize, k: usize) -> (Vec<SegVal>, bool, usize) {
+    let mut got: Vec<SegVal> = Vec::new();
+    if style == 0 && k == 0 {
+        for v in it {
+            got.push(v);
+        }
+        return (got, true, 0);
+    }
+    if style == 3 {
+        it.skip(k).for_each(|v| got.push(v));
+        return (got, true, 0);
+    }
+    if style == 5 {
+        match it.nth(k) {
+            Some(v) => got.push(v),
+            None => return (got, true, 0),
+        }
+        for v in it {
+            got.push(v);
+        }
+        return (got, true, 0);
+    }
+    for _ in 0..k {
+        match it.next() {
+            Some(v) => got.push(v),
+            // the contract does not promise a fused iterator: stop at the first `None`
+            None => return (got, true, 0),
+        }
+    }
+    match style {
+        0 => (got, false, 0),
+        1 => {
+            it.for_each(|v| got.push(v));
+            (got, true, 0)
+        }
+        2 => {
+            let n = it.count();
+            (got, true, n)
+        }
+        _ => {
+            if let Some(v) = it.last() {
+                got.push(v);
+            }
+            (got, true, 0)
+        }
+    }
 }
